@@ -23,15 +23,20 @@
 (*                                                                                     *)
 (* Spec trees: node = [k |-> kind, a |-> attribute, c |-> <<children>>]                  *)
 (*   leaves   new (returns a fresh target) | same (returns its target) -- both consult    *)
-(*            the plan and may fail -- | fail (always raises) | probe (logs the mode in force) | read (a: name;  *)
+(*            the plan and may fail -- | copy (like new, but the fresh object compares equal to   *)
+(*            its target) | fail (always raises) | probe (logs the mode in force) | read (a: name;  *)
 (*            logs what S.name resolves to)  | sbind (a: name; S(name=Val(path)))          *)
 (*            | abind (a: name; A.name: binds the current target)                          *)
 (*            | gbind / gread (a: name; A.globals.name / S.globals.name)                   *)
+(*            | vbind / vset / vread (a: name; S(name=Vars({'k': default})), A.name.k,      *)
+(*              S.name.k) | refuse (a: name; Ref(name)) | mark (logs that it ran)            *)
 (*   chains   tup (a Python tuple), pipe (Pipe)                                            *)
 (*   fan-out  dict (values), list (one sub-spec over the target's two items)               *)
-(*   branches coal (Coalesce), or, and, not, switch (children k1 v1 k2 v2 ...),            *)
+(*   branches coal (Coalesce), coalskip (Coalesce whose skip predicate rejects every value), or, *)
+(*            and, not, switch (children k1 v1 k2 v2 ...),                                   *)
 (*            mdict (Match-mode dict with one key/value spec pair, a: none)                *)
-(*   wrappers auto | fill | match (mode), spec (a: name; Spec(sub, scope={name: path}))    *)
+(*   wrappers auto | fill | match (mode), spec (a: name; Spec(sub, scope={name: path})),   *)
+(*            refdef (a: name; Ref(name, sub))                                              *)
 (*   lazy     iter (Iter(sub): a generator, target <<-5, g>>) | consume (the callable list)  *)
 EXTENDS Integers, Sequences, FiniteSets, TLC
 
@@ -39,7 +44,7 @@ CONSTANT Mutant    \* "none": glom as repaired;  otherwise a named deviation of 
 
 N(k, a, c) == [k |-> k, a |-> a, c |-> c]
 
-GlomitKinds == {"new", "same", "fail", "smiss", "iter", "probe", "read", "sbind", "abind", "gbind", "gread", "pipe", "coal",
+GlomitKinds == {"new", "same", "copy", "coalskip", "fail", "smiss", "iter", "refdef", "refuse", "vbind", "vset", "vread", "mark", "probe", "read", "sbind", "abind", "gbind", "gread", "pipe", "coal",
                 "or", "and", "not", "switch", "mdict", "auto", "fill", "match", "spec"}
 ModeOf(k) == CASE k = "auto" -> "AUTO" [] k = "fill" -> "FILL" [] k = "match" -> "MATCH"
 
@@ -108,6 +113,9 @@ Resolve(frames, f, name) ==
        IF i # 0 THEN [found |-> TRUE, val |-> frames[f].binds[i][2]]
        ELSE Resolve(frames, frames[f].par, name)
 
+RECURSIVE NodeAt(_, _)
+NodeAt(tree, path) == IF path = <<>> THEN tree ELSE NodeAt(tree.c[Head(path)], Tail(path))
+
 \* ---- control: Run ------------------------------------------------------------------------------
 Res(st, out, res, org, e) == [st |-> st, out |-> out, res |-> res, org |-> org, e |-> e]
 \* a new exception is raised in frame f (n: leaf execution number, 0 for other origins)
@@ -117,7 +125,7 @@ Log(st, rec) == [st EXCEPT !.log = Append(@, rec @@ [at |-> Len(st.acts)])]   \*
 RECURSIVE Run(_, _, _, _, _), RunChain(_, _, _, _, _, _, _), RunAll(_, _, _, _, _, _, _),
           RunCoal(_, _, _, _, _, _), RunOr(_, _, _, _, _, _), RunAnd(_, _, _, _, _, _, _),
           RunSwitch(_, _, _, _, _, _), RunItems(_, _, _, _, _, _, _), RunFillDict(_, _, _, _, _, _),
-          RunGen(_, _, _, _)
+          RunGen(_, _, _, _), RunCoalSkip(_, _, _, _, _, _)
 
 EffMode(st, f) == IF st.frames[f].minmode THEN "ARG" ELSE st.frames[f].mode
 
@@ -126,12 +134,12 @@ Run(st0, par, node, path, tgt) ==
       f == Len(st1.frames)
       st2 == IF node.k \in GlomitKinds /\ st1.frames[f].minmode THEN SetMin(st1, f, FALSE) ELSE st1
       r ==
-        CASE node.k \in {"new", "same"} ->
+        CASE node.k \in {"new", "same", "copy"} ->
                LET n == st2.leaf + 1
                    o == IF n <= Len(st2.plan) THEN st2.plan[n] ELSE "ok"
                    st3 == [st2 EXCEPT !.leaf = n]
                IN IF o = "err" THEN Res(NewErr(st3, f, n), "err", tgt, f, st3.eid + 1)
-                  ELSE Res(st3, "ok", IF node.k = "new" THEN <<n>> ELSE tgt, 0, 0)
+                  ELSE Res(st3, "ok", IF node.k = "same" THEN tgt ELSE <<n>>, 0, 0)   \* copy: a distinct object (equal to tgt)
           [] node.k \in {"fail", "smiss"} ->      \* a leaf that always raises (smiss: S.<missing name>)
                Res(NewErr(st2, f, 0), "err", tgt, f, st2.eid + 1)
           [] node.k = "iter" ->
@@ -165,6 +173,33 @@ Run(st0, par, node, path, tgt) ==
                Res(Act([st2 EXCEPT !.gl = Append(@, <<node.a, <<"t">> \o tgt>>)],
                        [a |-> "gbind", f |-> f, name |-> node.a, val |-> <<"t">> \o tgt]), "ok", tgt, 0, 0)
           [] node.k = "spec" -> Run(Bind(st2, f, node.a, <<"b">> \o path), f, node.c[1], Append(path, 1), tgt)
+          [] node.k = "mark" -> Res(Log(st2, [p |-> path, what |-> "mark", v |-> <<"m">>]), "ok", tgt, 0, 0)
+          [] node.k = "refdef" ->      \* Ref(name, sub): names sub in this frame, then evaluates it
+               Run(Bind(st2, f, "ref:" \o node.a, <<"r">> \o path), f, node.c[1], Append(path, 1), tgt)
+          [] node.k = "refuse" ->      \* Ref(name): evaluates the sub-spec of the nearest definition in scope
+               LET rr == Resolve(st2.frames, f, "ref:" \o node.a) IN
+               IF rr.found
+               THEN LET dp == Tail(rr.val) IN
+                    Run(Log(st2, [p |-> path, what |-> "refuse", v |-> rr.val]), f, NodeAt(st2.tree, dp).c[1], Append(dp, 1), tgt)
+               ELSE Res(NewErr(Log(st2, [p |-> path, what |-> "refuse", v |-> <<"inv">>]), f, 0), "err", tgt, f, st2.eid + 1)
+          [] node.k = "vbind" ->       \* S(name=Vars(...)): a fresh variables object per evaluation, bound here
+               LET id == Len(st2.vars) + 1
+                   sv == Act([st2 EXCEPT !.vars = Append(@, <<"d">>)], [a |-> "vbind", f |-> f, path |-> path, id |-> id])
+                   sa == SetMin(sv, f, TRUE)
+                   sc == Enter(sa, f, Append(path, 0), tgt)
+                   c == Len(sc.frames)
+                   sd == SetMin(SetMin(sc, c, FALSE), f, FALSE)
+               IN Res(Bind(sd, f, node.a, <<"v", id>>), "ok", tgt, 0, 0)
+          [] node.k = "vset" ->        \* A.<name>.k: stores the target in the variables object <name> resolves to
+               LET rr == Resolve(st2.frames, f, node.a) IN
+               IF rr.found /\ Head(rr.val) = "v"
+               THEN Res(Act([st2 EXCEPT !.vars[rr.val[2]] = <<"t">> \o tgt],
+                            [a |-> "vset", f |-> f, id |-> rr.val[2], val |-> <<"t">> \o tgt]), "ok", tgt, 0, 0)
+               ELSE Res(NewErr(st2, f, 0), "err", tgt, f, st2.eid + 1)
+          [] node.k = "vread" ->       \* S.<name>.k
+               LET rr == Resolve(st2.frames, f, node.a) IN
+               Res(Log(st2, [p |-> path, what |-> "vread",
+                             v |-> IF rr.found /\ Head(rr.val) = "v" THEN st2.vars[rr.val[2]] ELSE <<"inv">>]), "ok", tgt, 0, 0)
           [] node.k \in {"auto", "fill", "match"} ->
                Run(SetMode(st2, f, ModeOf(node.k)), f, node.c[1], Append(path, 1), tgt)
           [] node.k = "pipe" -> RunChain(st2, f, node, path, 1, f, tgt)
@@ -178,6 +213,7 @@ Run(st0, par, node, path, tgt) ==
                IF EffMode(st2, f) = "AUTO" THEN RunItems(st2, f, node, path, 1, tgt, <<>>)
                ELSE RunAll(st2, f, node, path, 1, tgt, <<>>)
           [] node.k = "coal" -> RunCoal(st2, f, node, path, 1, tgt)
+          [] node.k = "coalskip" -> RunCoalSkip(st2, f, node, path, 1, tgt)
           [] node.k = "or" -> RunOr(st2, f, node, path, 1, tgt)
           [] node.k = "and" -> RunAnd(st2, f, node, path, 1, tgt, tgt)
           [] node.k = "not" ->
@@ -239,6 +275,13 @@ RunCoal(st, f, node, path, i, tgt) ==
   ELSE LET r == Run(st, f, node.c[i], Append(path, i), tgt)
        IN IF r.out = "ok" THEN r ELSE RunCoal(r.st, f, node, path, i + 1, tgt)
 
+\* Coalesce(..., skip=<rejects every value>): an alternative that returns is skipped like one that raises;
+\* when none is left the CoalesceError is raised here -- possibly after a last alternative that did not raise
+RunCoalSkip(st, f, node, path, i, tgt) ==
+  IF i > Len(node.c) THEN Res(NewErr(st, f, 0), "err", tgt, f, st.eid + 1)
+  ELSE LET r == Run(st, f, node.c[i], Append(path, i), tgt)
+       IN RunCoalSkip(r.st, f, node, path, i + 1, tgt)
+
 \* Or: all but the last child guarded; the last child's error propagates as it is
 RunOr(st, f, node, path, i, tgt) ==
   LET r == Run(st, f, node.c[i], Append(path, i), tgt)
@@ -261,11 +304,9 @@ RunSwitch(st, f, node, path, i, tgt) ==
 \* one top-level glom(target, tree, scope=callerBinds) call
 Start(tree, plan, callerBinds) ==
   Run([frames |-> <<RootFrame(<<0>>, callerBinds)>>, acts |-> <<>>, leaf |-> 0, eid |-> 0, plan |-> plan,
-       log |-> <<>>, gl |-> <<>>, errs |-> <<>>, gens |-> <<>>], 1, tree, <<>>, <<0>>)
+       log |-> <<>>, gl |-> <<>>, errs |-> <<>>, gens |-> <<>>, vars |-> <<>>, tree |-> tree], 1, tree, <<>>, <<0>>)
 
 \* ---- static tree helpers ------------------------------------------------------------------------
-RECURSIVE NodeAt(_, _)
-NodeAt(tree, path) == IF path = <<>> THEN tree ELSE NodeAt(tree.c[Head(path)], Tail(path))
 RECURSIVE Leaves(_)
 Leaves(t) == IF t.k \in {"new", "same"} THEN 1
              ELSE IF t.c = <<>> THEN 0
@@ -292,7 +333,8 @@ ModeLexical(tree, acts) ==
 \* decides.  The result is the value token the mechanism would log: <<"b">> \o path for S(..) /
 \* Spec(scope=) binders, "t"-marked for A.k (the target it received is dynamic: only the binder's
 \* identity is predicted by the law), <<"inv">> when nothing is visible.
-IsBinderOf(nd, name) == nd.k \in {"sbind", "abind", "spec"} /\ nd.a = name
+IsBinderOf(nd, name) == \/ nd.k \in {"sbind", "abind", "spec", "vbind"} /\ nd.a = name
+                        \/ nd.k = "refdef" /\ "ref:" \o nd.a = name
 IsChainAt(tree, pp) ==        \* is the node at path pp a chain of its children?
   LET nd == NodeAt(tree, pp) IN
   \/ nd.k = "pipe"
@@ -317,6 +359,7 @@ VisibleFrom(tree, p, name) ==       \* path of the binder visible at node path p
            hit == FirstBinder(tree, pp, EarlierSteps(tree, pp, i), name, 1)
        IN IF hit # <<>> THEN hit
           ELSE IF NodeAt(tree, pp).k = "spec" /\ NodeAt(tree, pp).a = name THEN pp
+          ELSE IF NodeAt(tree, pp).k = "refdef" /\ "ref:" \o NodeAt(tree, pp).a = name THEN pp
           ELSE VisibleFrom(tree, pp, name)
 \* does the log entry of a reader agree with the law?  (binder identity; caller scope otherwise)
 ReadAgrees(tree, entry, name, callerHas) ==
@@ -324,6 +367,21 @@ ReadAgrees(tree, entry, name, callerHas) ==
   IF b = <<0>> THEN (IF callerHas THEN entry.v = <<"c">> ELSE entry.v = <<"inv">>)
   ELSE LET nd == NodeAt(tree, b) IN
        IF nd.k = "abind" THEN Head(entry.v) = "t" ELSE entry.v = <<"b">> \o b
+\* Ref(name) evaluates the nearest definition in scope (the log entry carries <<"r">> \o its path)
+RefAgrees(tree, entry, name) ==
+  LET b == VisibleFrom(tree, entry.p, "ref:" \o name) IN
+  IF b = <<0>> THEN entry.v = <<"inv">> ELSE entry.v = <<"r">> \o b
+\* Vars: a reader sees the variables object created by the latest evaluation of the binder the
+\* visibility rule designates, holding the latest assignment made to that object (default otherwise)
+VarsAgrees(tree, acts, entry, name) ==
+  LET b == VisibleFrom(tree, entry.p, name) IN
+  IF b = <<0>> \/ NodeAt(tree, b).k # "vbind" THEN entry.v = <<"inv">>
+  ELSE LET B == {j \in 1..entry.at : j <= Len(acts) /\ acts[j].a = "vbind" /\ acts[j].path = b} IN
+       IF B = {} THEN FALSE
+       ELSE LET jb == CHOOSE j \in B : \A m \in B : m <= j
+                id == acts[jb].id
+                W == {j \in jb..entry.at : j <= Len(acts) /\ acts[j].a = "vset" /\ acts[j].id = id} IN
+            IF W = {} THEN entry.v = <<"d">> ELSE entry.v = acts[CHOOSE j \in W : \A m \in W : m <= j].val
 \* S.globals / A.globals: one namespace per top-level call; a reader sees the latest assignment
 \* executed before it in this call, wherever the two are placed (acts = the call's action sequence)
 GlobalAgrees(acts, entry, name) ==
